@@ -461,3 +461,114 @@ def mutators(chk, prog, rule='R5'):
         chk.notes.append('bit-level result undecided (loop not summarised): %s' % sorted(set(undecided))[:8])
     chk.samples.append({'R5_members_specified': n_spec, 'R5_undecided': sorted(set(undecided))})
     return n_spec
+
+
+# ====================================================================== iteration order (R6)
+
+def iteration_order(chk, prog, rule='R6'):
+    """C12-R6: forward()/reverse() of the iterator base move to the NEXT set position (ascending resp. descending)
+    or to the end marker - decided as a linear-search proof on the skip loop: every step tests exactly the
+    neighbouring position, the loop continues only over a clear bit inside the set and stops only at a set bit or
+    at the end marker; operator++/-- of the iterators are defined through them."""
+    from .. import bits
+    from ..bits import region_of
+    cfg = {'inline': ('celma::container::',), 'inline_depth': 3, 'track_content': True, 'models': dict(bits.MODELS)}
+    eng = Engine(prog, cfg)
+    BS = 'bs.mData'
+    reg = region_of(BS)
+    bases = [f for f in prog.functions if (f.classq or '').endswith('DynamicBitsetIteratorBase')
+             and f.short in ('forward', 'reverse')]
+    chk.require(len(bases) >= 2, 'forward()/reverse() of the iterator base not instantiated')
+    seen_kind = set()
+    for f in sorted(bases, key=lambda x: (x.short, x.cls)):
+        if (f.short, f.line) in seen_kind:
+            continue            # instantiations for const / non-const bitsets share the code
+        seen_kind.add((f.short, f.line))
+        up = f.short == 'forward'
+        loops = [x for x in f.walk() if x.get('k') == 'WhileStmt']
+        chk.require(len(loops) == 1, '%s(): skip loop not found' % f.short)
+        loop = loops[0]
+        cond, body = loop['c'][-2], loop['c'][-1]
+        eng.root = f.name
+
+        def fresh_state():
+            st = St()
+            st.fields[('this', 'mpDynBitset')] = Obj('bs', 'celma::container::DynamicBitset')
+            st.fields[('bs', 'mData')] = Obj(BS, 'std::vector<bool>')
+            n = bits.vec_size(eng, st, BS)
+            st.assume(le(n, (1 << 62)))
+            h = eng.named('this.mCurrPos', st, 'long')
+            st.fields[('this', 'mCurrPos')] = h
+            st.ftypes[('this', 'mCurrPos')] = 'long'
+            st.assume(ge(h, -1), le(h, n))           # the position invariant (C12-O2)
+            return st, n, h
+        tag = 'DynamicBitsetIteratorBase::%s()' % f.short
+        mark = len(eng.obligations)
+        # (1) the guard in front of the loop: an early return only when nothing can be found
+        st, n, h = fresh_state()
+        pre = [x for x in children(f.body) if x is not loop and children(f.body).index(x) < children(f.body).index(loop)]
+        live = [st]
+        for stmt in pre:
+            nxt = eng.stmt(stmt, live, f)
+            for s in nxt:
+                if s.status == 'return':
+                    # (the unsigned comparison in forward() also sends the marker -1 of the reverse direction back)
+                    ok = (entails(s.cons, ge(h, n)) or entails(s.cons, le(h, -1))) if up else entails(s.cons, le(h, -1))
+                    chk.check(ok, rule, f.name, 'an early return only at the end marker [%s]' % tag, f.loc(stmt),
+                              'position %r, size %r' % (h, n))
+            live = [s for s in nxt if s.status == 'normal']
+        # (2) one symbolic step from a head inside the search range
+        for s0 in live:
+            head = s0.copy()
+            head.assume(lt(h, n) if up else ge(h, 0))
+            if not head.ok():
+                continue
+            for truth, s1 in eng.cond(cond, head, f):
+                if s1.status == 'throw':
+                    chk.check(False, rule, f.name, 'the skip loop does not throw [%s]' % tag, f.loc(loop),
+                              '; '.join(s1.trail[-4:]))
+                    continue
+                p1 = s1.fields.get(('this', 'mCurrPos'))
+                want = h + 1 if up else h - 1
+                step = isinstance(p1, Lin) and entails(s1.cons, ge(p1, want)) and entails(s1.cons, le(p1, want))
+                chk.check(step, rule, f.name, 'each step moves to the neighbouring position [%s]' % tag, f.loc(cond),
+                          'position %r after a step from %r' % (p1, h))
+                if not step:
+                    continue
+                facts = [g for g in s1.ghost if g[0] == 'bitfact' and g[1][0] == 'r' and g[1][1] == reg and
+                         entails(s1.cons, ge(g[1][2], p1)) and entails(s1.cons, le(g[1][2], p1))]
+                inside = entails(s1.cons, lt(p1, n)) if up else entails(s1.cons, ge(p1, 0))
+                at_end = entails(s1.cons, ge(p1, n)) if up else entails(s1.cons, le(p1, -1))
+                if truth:
+                    ok = inside and any(g[2] is False for g in facts)
+                    chk.check(ok, rule, f.name, 'the search continues only over a clear bit inside the set [%s]' % tag,
+                              f.loc(cond), 'continues at %r: inside %s, bit facts %s' % (p1, inside, [g[2] for g in facts]))
+                    # the body must not move the position
+                    for r in eng.stmt(body, [s1], f):
+                        p2 = r.fields.get(('this', 'mCurrPos'))
+                        chk.check(r.status == 'normal' and isinstance(p2, Lin) and entails(r.cons, ge(p2, p1)) and
+                                  entails(r.cons, le(p2, p1)), rule, f.name, 'the loop body does not move the position '
+                                  '[%s]' % tag, f.loc(body), 'status %s, position %r' % (r.status, p2))
+                else:
+                    ok = at_end or (inside and any(g[2] is True for g in facts))
+                    chk.check(ok, rule, f.name, 'the search stops only at a set bit or at the end marker [%s]' % tag,
+                              f.loc(cond), 'stops at %r: at end %s, inside %s, bit facts %s' % (
+                                  p1, at_end, inside, [g[2] for g in facts]))
+        del eng.obligations[mark:]
+    # operator++ / operator-- are defined through forward() / reverse()
+    table = {('DynamicBitsetIterator', 'operator++'): 'forward', ('DynamicBitsetIterator', 'operator--'): 'reverse',
+             ('DynamicBitsetReverseIterator', 'operator++'): 'reverse',
+             ('DynamicBitsetReverseIterator', 'operator--'): 'forward'}
+    n_ops = 0
+    for f in prog.functions:
+        cls = (f.classq or '').split('::')[-1]
+        want = table.get((cls, f.short))
+        if want is None or f.body is None:
+            continue
+        n_ops += 1
+        calls = [c for c in f.calls() if (c.get('callee') or '').split('::')[-1] in ('forward', 'reverse')]
+        ok = len(calls) == 1 and (calls[0].get('callee') or '').endswith('::' + want) and \
+            not f.cfg.must_pass_through(lambda nn: nn in calls)
+        chk.check(ok, rule, f.name, '%s::%s steps with %s() on every path' % (cls, f.short, want), f.loc(),
+                  'calls: %s' % [(c.get('callee') or '').split('::')[-1] for c in calls])
+    chk.require(n_ops >= 8, 'iterator step operators instantiated: %d' % n_ops)
